@@ -27,7 +27,7 @@ CHECKS = {
    ref="DESIGN.md 7 C01"),
  "C02": dict(
    text="Theorems (closed): C02_vars_of_match - the variables of every reported match are the bindings of the specification's first outcome at that offset, built only along "
-        "the successful derivation; C02_alternatives_isolated, C02_capture_binds (binding = text consumed on that path, latest wins), C02_backref_exact. Tie: variables compared "
+        "the successful derivation; C02_alternatives_isolated, C02_capture_binds (binding = text consumed on that path, latest wins), C02_backref_exact. C02_variables_have_the_named_loop_shape / C02_shape_meaning - for ARBITRARY bytecode every variable of every reported match is a string or an iteration table (keys exactly the decimal numbers 0..k, each once, entries variable maps with no name twice), nested to any depth. Tie: variables compared "
         "as sorted maps at all layers on templates that bind on an abandoned alternative/iteration/call and then fail. For ARBITRARY bytecode (named loops included): C02_checkpoints_immutable - a VM step only pushes checkpoints or resumes a saved core unchanged; C02_capture_writes_running_core_only.",
    note="Named-loop variable nests are modelled and compared but outside the theorem. The aliasing defect (shared environment map) was repaired in /repo (61584fb); the model is of the repaired code.",
    technique="Coq proof (corollaries of the refinement theorem and inversion lemmas on the semantics) + differential correspondence on abandoned-binding templates",
@@ -172,7 +172,7 @@ CHECKS = {
         "value, variables nested for named loops, replacement exactly when present); C17_one_object_per_match; C17_compact_parses_back / C17_indented_parses_back - a plain recursive-descent JSON "
         "reader (objects, arrays, strings with escapes, integers, blanks between tokens; raw control characters rejected) reads the compact and the tab-indented rendering of EVERY document back as "
         "exactly that document (any nesting, quotes, backslashes, control characters, <>&, bytes >= 0x80), so both renderings are valid and are the same document; C17_any_layout_parses_back. "
-        "Tie: Json() and FormattedJson() of the implementation must parse (Python json), be equal documents and decode to the in-memory matches on result lists {empty, one, many} x {find, replace} "
+        "C17_variables_are_well_formed_objects - what the `variables` member can be, for arbitrary bytecode (no name twice; strings or iteration tables of variable maps). Tie: Json() and FormattedJson() of the implementation must parse (Python json), be equal documents and decode to the in-memory matches on result lists {empty, one, many} x {find, replace} "
         "x {flat, nested variables} over hostile texts; byte-for-byte comparison with the model's renderers on ASCII texts.",
    note="encoding/json itself is modelled by the two renderers of Model/Json.v (validated byte for byte on ASCII texts; on invalid UTF-8 Go writes U+FFFD, which is outside the model: there validity "
         "and decoding are decided by Python json only). The JSON reader of the theorem is the yardstick for validity; it is deliberately small (no floats, no exponent, no true/false/null: result "
